@@ -44,6 +44,47 @@ enum Tool {
     BashSleep,
     /// `read utf8.txt` with `max_bytes` = the argument: the cut falls inside 2-/3-/4-byte characters
     ReadCut(u8),
+    /// `bash` that puts something else where a best-effort write of the run's exit path (or of a later run) wants to go:
+    /// "whatever the tools do" includes damaging the store's own side files
+    Damage(Target),
+}
+
+/// the target path of a side write, damaged by the run's own tool (cwd = workspace root `<root>/ws`, data dir `<root>/data`)
+#[derive(Clone, Copy, Debug, PartialEq, Eq, PartialOrd, Ord, Serialize, Deserialize)]
+enum Target {
+    /// `<data>/snapshots` replaced by a regular file: write_snapshot's create_dir_all fails in this and every later run
+    SnapDir,
+    /// `<data>/snapshots/<this session>.json` made a directory: File::create fails in THIS run only (the session id must be
+    /// known when the input is written: engine route, or POST /sessions + input)
+    SnapFile,
+    /// `<data>/continuity_streams` replaced by a regular file: the sidecar / index writes of every later thread frame fail
+    StreamCache,
+    /// `<ws>/.rip/artifacts` replaced by a regular file: context bundles cannot be written (later compiles fail)
+    Artifacts,
+    /// `<ws>/.rip/checkpoints` replaced by a regular file: the auto checkpoint of a later mutating tool fails
+    Checkpoints,
+}
+const DIR_TARGETS: [Target; 4] = [Target::SnapDir, Target::StreamCache, Target::Artifacts, Target::Checkpoints];
+impl Target {
+    fn command(self, sid: Option<&str>) -> String {
+        let swap = |p: &str| format!("rm -rf {p} && : > {p}");
+        match self {
+            Target::SnapDir => swap("../data/snapshots"),
+            Target::SnapFile => format!("mkdir -p ../data/snapshots/{}.json", sid.unwrap_or("unknown-session")),
+            Target::StreamCache => swap("../data/continuity_streams"),
+            Target::Artifacts => "mkdir -p .rip && rm -rf .rip/artifacts && : > .rip/artifacts".to_string(),
+            Target::Checkpoints => "mkdir -p .rip && rm -rf .rip/checkpoints && : > .rip/checkpoints".to_string(),
+        }
+    }
+    /// the model's `sw_code` of the side write this target belongs to
+    fn sw_code(self) -> u64 {
+        match self {
+            Target::SnapDir | Target::SnapFile => 1,
+            Target::StreamCache => 2,
+            Target::Artifacts => 3,
+            Target::Checkpoints => 4,
+        }
+    }
 }
 /// one line: 2 ASCII bytes, then 2-byte characters from offset 2, 3-byte from 18, 4-byte from 42 (74 bytes)
 const UTF8_FILE: &str = "abéééééééé€€€€€€€€😀😀😀😀😀😀😀😀";
@@ -55,7 +96,7 @@ impl Tool {
             Tool::Ls => "ls",
             Tool::ReadOk | Tool::ReadMissing | Tool::ReadBadArgs | Tool::ReadCut(_) => "read",
             Tool::WriteOk | Tool::WriteBadArgs => "write",
-            Tool::BashEcho | Tool::BashFail | Tool::BashSleep => "bash",
+            Tool::BashEcho | Tool::BashFail | Tool::BashSleep | Tool::Damage(_) => "bash",
             Tool::Unknown => "frobnicate",
         }
     }
@@ -72,6 +113,7 @@ impl Tool {
             Tool::Unknown => json!({"x": 1}),
             Tool::BashSleep => json!({"command": "sleep 2"}),
             Tool::ReadCut(k) => json!({"path": "utf8.txt", "max_bytes": k}),
+            Tool::Damage(t) => json!({"command": t.command(None)}),
         }
     }
     /// the `arguments` string of a provider function call
@@ -269,6 +311,84 @@ struct Case {
     /// fault injection (hook `rip_kernel::verif::fail`): these continuity appends return Err for the whole case
     #[serde(default)]
     faults: Vec<Fault>,
+    /// failing SIDE writes through the fail hook: for the whole case (every run of it) these best-effort writes of the
+    /// exit path return an I/O error.  (The other way to make them fail is `Tool::Damage`: the run's own tool.)
+    #[serde(default)]
+    side_faults: Vec<SideFault>,
+}
+
+/// a best-effort write at the end of a run, failing through `rip_kernel::verif::fail`
+#[derive(Clone, Copy, Debug, PartialEq, Eq, PartialOrd, Ord, Serialize, Deserialize)]
+enum SideFault {
+    /// write_snapshot fails before it touches the disk (read-only data directory)
+    SnapWrite,
+    /// write_snapshot fails after File::create: an empty `<session>.json` is left (disk full)
+    SnapWriteBody,
+}
+impl SideFault {
+    fn point(self) -> &'static str {
+        match self {
+            SideFault::SnapWrite => "snap.write",
+            SideFault::SnapWriteBody => "snap.write.body",
+        }
+    }
+}
+
+/// what the failing side writes of a case do to each activity's run (the harness's own book-keeping: which snapshot
+/// writes it expects to fail, what a damaged directory changes for later runs)
+#[derive(Clone, Debug, Default)]
+struct SidePlan {
+    /// the snapshot write of activity i's run fails
+    snap_fails: Vec<bool>,
+    /// `sw_code`s of the side writes that fail in activity i's run
+    codes: Vec<Vec<u64>>,
+    /// `.rip/artifacts` is damaged when activity i's run compiles its context
+    no_artifacts: Vec<bool>,
+    /// `.rip/checkpoints` is damaged when activity i's run starts
+    no_checkpoints: Vec<bool>,
+    any: bool,
+}
+fn act_damage(a: &Act) -> Vec<Target> {
+    let mut out = vec![];
+    if let Act::Post { input, provider } | Act::Input { input, provider } = a {
+        if let InputSpec::ToolEnv { tool: Tool::Damage(t), .. } = input {
+            out.push(*t);
+        }
+        if let (InputSpec::Prompt, Some(p)) = (input, provider) {
+            for r in &p.reqs {
+                if let Req::Stream { events, .. } = r {
+                    out.extend(events.iter().filter_map(|e| match e {
+                        Sse::Call(Tool::Damage(t)) => Some(*t),
+                        _ => None,
+                    }));
+                }
+            }
+        }
+    }
+    out
+}
+fn side_plan(c: &Case) -> SidePlan {
+    let n = c.acts.len();
+    let hook = !c.side_faults.is_empty();
+    let mut pl = SidePlan { snap_fails: vec![hook; n], codes: vec![if hook { vec![1] } else { vec![] }; n], no_artifacts: vec![false; n], no_checkpoints: vec![false; n], any: hook };
+    for (i, a) in c.acts.iter().enumerate() {
+        for t in act_damage(a) {
+            pl.any = true;
+            let upto = if t == Target::SnapFile { i + 1 } else { n };
+            for j in i..upto {
+                if !pl.codes[j].contains(&t.sw_code()) {
+                    pl.codes[j].push(t.sw_code());
+                }
+                match t {
+                    Target::SnapDir | Target::SnapFile => pl.snap_fails[j] = true,
+                    Target::Artifacts if j > i => pl.no_artifacts[j] = true,
+                    Target::Checkpoints if j > i => pl.no_checkpoints[j] = true,
+                    _ => {}
+                }
+            }
+        }
+    }
+    pl
 }
 
 /// a continuity append a run makes, failing (`let _ = continuities.append_…` in run_session drops the result)
@@ -310,23 +430,35 @@ impl Fault {
         }
     }
 }
-/// installs the fail hook for one case, removes it when dropped
+/// the fail points that return `true` right now (one case at a time); the process-wide fail hook (installed in `main`)
+/// looks them up here and counts how often `snap.write` is asked - a run_session task asks it exactly once, when it
+/// reaches its snapshot step, whether or not the write then succeeds
+static FAILING: std::sync::Mutex<BTreeSet<&'static str>> = std::sync::Mutex::new(BTreeSet::new());
+static SNAP_ATTEMPTS: AtomicU64 = AtomicU64::new(0);
+fn fail_hook(name: &'static str) -> bool {
+    if name == "snap.write" {
+        SNAP_ATTEMPTS.fetch_add(1, Ordering::SeqCst);
+    }
+    FAILING.lock().map(|g| g.contains(name)).unwrap_or(false)
+}
+/// sets the failing points of one case, clears them when dropped
 struct FaultGuard;
 impl FaultGuard {
-    fn install(faults: &[Fault], job_early_err: bool) -> FaultGuard {
+    fn install(faults: &[Fault], side: &[SideFault], job_early_err: bool) -> FaultGuard {
         let mut names: BTreeSet<&'static str> = faults.iter().map(|f| f.point()).collect();
+        names.extend(side.iter().map(|f| f.point()));
         if job_early_err {
             names.insert("cont.job.replay");
         }
-        if !names.is_empty() {
-            rip_kernel::verif::set_fail_hook(Some(Arc::new(move |n: &'static str| names.contains(n))));
-        }
+        *FAILING.lock().unwrap() = names;
         FaultGuard
     }
 }
 impl Drop for FaultGuard {
     fn drop(&mut self) {
-        rip_kernel::verif::set_fail_hook(None);
+        if let Ok(mut g) = FAILING.lock() {
+            g.clear();
+        }
     }
 }
 
@@ -528,6 +660,9 @@ fn input_text_for(i: &InputSpec, n: usize, ws: &Path, sid: &str) -> Result<Strin
         let w = rip_workspace::Workspace::new(ws).map_err(|e| format!("workspace: {e}"))?;
         let ck = w.create_checkpoint(sid, "c07-own", &[PathBuf::from("a.txt")]).map_err(|e| format!("checkpoint set-up: {e}"))?;
         return Ok(json!({"checkpoint": {"action": "rewind", "id": ck.id}}).to_string());
+    }
+    if let InputSpec::ToolEnv { tool: Tool::Damage(t @ Target::SnapFile), .. } = i {
+        return Ok(json!({"tool": "bash", "args": {"command": t.command(Some(sid))}}).to_string());
     }
     Ok(input_text(i, n))
 }
@@ -1111,25 +1246,66 @@ fn act_done(a: &Act, id: &Ids, log: &[Line], faults: &[Fault]) -> bool {
 /// set once a run or job was seen not to write its closing thread frame: later cases wait only briefly
 static SEEN_MISSING_END: std::sync::atomic::AtomicBool = std::sync::atomic::AtomicBool::new(false);
 
-/// Phase 1: every started run_session task has passed `write_snapshot` (hook count; watchdog => "hang").
-/// Phase 2: the closing thread frames (run_ended right after the snapshot, job_ended) are in the log; a frame
+/// counters at the start of a case
+#[derive(Clone, Copy)]
+struct Before {
+    snaps: u64,
+    panics: usize,
+    attempts: u64,
+}
+/// runs started so far in a case, and how many of them the harness expects to write their snapshot (all of them unless
+/// the case makes snapshot writes fail)
+#[derive(Clone, Copy, Default)]
+struct Started {
+    runs: u64,
+    snap_ok: u64,
+}
+impl std::ops::AddAssign<u64> for Started {
+    /// `n` more runs whose snapshot write is expected to succeed
+    fn add_assign(&mut self, n: u64) {
+        self.runs += n;
+        self.snap_ok += n;
+    }
+}
+impl Started {
+    fn add(&mut self, snap_fails: bool) {
+        self.runs += 1;
+        if !snap_fails {
+            self.snap_ok += 1;
+        }
+    }
+}
+/// set once a run was seen not to reach its snapshot step within the watchdog: later cases wait only briefly (the tree is
+/// red already; a search over thousands of cases must not pay the full watchdog every time)
+static SEEN_HANG: std::sync::atomic::AtomicBool = std::sync::atomic::AtomicBool::new(false);
+const WATCHDOG_AFTER_HANG: Duration = Duration::from_secs(12);
+
+/// Phase 1: every started run_session task has reached `write_snapshot` (it asks the fail point `snap.write` exactly once;
+/// hook count) and every snapshot the harness expects to be written is flushed (hook count of `snap.flushed`); with no
+/// failing snapshot in the case that is "as many flushed snapshots as runs".  Watchdog => "hang".
+/// Phase 2: the closing thread frames (run_ended right after the snapshot step, job_ended) are in the log; a frame
 /// still missing after a generous grace period is left to the oracle (end-count), not reported as a hang.
-async fn wait_done(data: &Path, acts: &[Act], ids: &[Ids], before: (u64, usize), runs_started: u64, faults: &[Fault]) -> Option<String> {
-    let (snaps_before, panics_before) = before;
+async fn wait_done(data: &Path, acts: &[Act], ids: &[Ids], before: Before, started: Started, faults: &[Fault]) -> Option<String> {
+    let runs_started = started.runs;
     let t0 = Instant::now();
     loop {
-        let snaps = SNAPS.load(Ordering::SeqCst) - snaps_before;
-        if snaps >= runs_started {
+        let snaps = SNAPS.load(Ordering::SeqCst) - before.snaps;
+        let attempts = SNAP_ATTEMPTS.load(Ordering::SeqCst) - before.attempts;
+        // (a tree without the fail point never counts an attempt: there a flushed snapshot is the sign)
+        let reached = attempts.max(snaps);
+        if reached >= runs_started && snaps >= started.snap_ok {
             break;
         }
         // a run whose task panicked never reaches its single exit: no session_ended, no snapshot, no run_ended
-        let died = (panics_seen() - panics_before.min(panics_seen())) as u64;
-        if died > 0 && snaps + died >= runs_started {
+        let died = (panics_seen() - before.panics.min(panics_seen())) as u64;
+        if died > 0 && reached + died >= runs_started {
             let msg = PANICS.lock().ok().and_then(|g| g.last().cloned()).unwrap_or_default();
-            return Some(format!("{} of {runs_started} runs never ended: their task panicked ({msg})", runs_started - snaps));
+            return Some(format!("{} of {runs_started} runs never ended: their task panicked ({msg})", runs_started - reached.min(runs_started)));
         }
-        if t0.elapsed() > WATCHDOG {
-            return Some(format!("{} of {runs_started} runs did not reach their snapshot within {WATCHDOG:?}", runs_started - snaps));
+        let watchdog = if SEEN_HANG.load(Ordering::SeqCst) { WATCHDOG_AFTER_HANG } else { WATCHDOG };
+        if t0.elapsed() > watchdog {
+            SEEN_HANG.store(true, Ordering::SeqCst);
+            return Some(format!("{} of {runs_started} runs did not reach their snapshot step within {watchdog:?} ({snaps} snapshots flushed, {} expected)", runs_started - reached.min(runs_started), started.snap_ok));
         }
         tokio::time::sleep(Duration::from_millis(3)).await;
     }
@@ -1187,10 +1363,15 @@ async fn exec_case(c: &Case, root: &Path) -> Result<Exec, String> {
             }
         }
     }
-    let snaps_before = (SNAPS.load(Ordering::SeqCst), panics_seen());
-    let _faults = FaultGuard::install(&c.faults, c.acts.iter().any(|a| matches!(a, Act::Job { early_err: true, .. })));
+    let snaps_before = Before { snaps: SNAPS.load(Ordering::SeqCst), panics: panics_seen(), attempts: SNAP_ATTEMPTS.load(Ordering::SeqCst) };
+    let plan = side_plan(c);
+    let damaging = c.acts.iter().any(|a| !act_damage(a).is_empty());
+    if plan.any && ((c.parallel && damaging) || c.acts.iter().any(|a| !matches!(a, Act::Post { .. } | Act::Input { .. }))) {
+        return Err("unsupported case: failing side writes with parallel activities / other activity kinds".into());
+    }
+    let _faults = FaultGuard::install(&c.faults, &c.side_faults, c.acts.iter().any(|a| matches!(a, Act::Job { early_err: true, .. })));
     let mut ids: Vec<Ids> = vec![];
-    let mut runs_started = 0u64;
+    let mut runs_started = Started::default();
     let mut hang = None;
     let thread;
     if c.engine {
@@ -1212,7 +1393,7 @@ async fn exec_case(c: &Case, root: &Path) -> Result<Exec, String> {
                             id.sid = Some(sid);
                             let link = ripd::ContinuityRunLink { continuity_id: thread.clone(), message_id: mid, actor_id: "user".into(), origin: "server".into() };
                             engine.spawn_session(handle, text, Some(link), cfg);
-                            runs_started += 1;
+                            runs_started.add(plan.snap_fails[i]);
                             id.status = 202;
                         }
                     }
@@ -1223,7 +1404,7 @@ async fn exec_case(c: &Case, root: &Path) -> Result<Exec, String> {
                     id.sid = Some(handle.session_id.clone());
                     let text = input_text_for(input, i, &ws, &handle.session_id)?;
                     engine.spawn_session(handle, text, None, cfg);
-                    runs_started += 1;
+                    runs_started.add(plan.snap_fails[i]);
                     id.status = 202;
                 }
                 Act::InputRace { rounds, n, input, stepped } => {
@@ -1270,7 +1451,7 @@ async fn exec_case(c: &Case, root: &Path) -> Result<Exec, String> {
             let (st, v) = call_json(&app, req("POST", &format!("/threads/{thread}/messages"), Some(json!({"content": "preamble"})))).await;
             let mid = v.get("message_id").and_then(|x| x.as_str()).unwrap_or("").to_string();
             let pre = Ids { sid: v.get("session_id").and_then(|x| x.as_str()).map(|s| s.to_string()), status: st, ..Default::default() };
-            runs_started += 1;
+            runs_started.add(!c.side_faults.is_empty());
             let pre_act = Act::Post { input: InputSpec::Prompt, provider: None };
             if let Some(h) = wait_done(&data, std::slice::from_ref(&pre_act), std::slice::from_ref(&pre), snaps_before, runs_started, &c.faults).await {
                 hang = Some(h);
@@ -1291,6 +1472,9 @@ async fn exec_case(c: &Case, root: &Path) -> Result<Exec, String> {
                     if *input == InputSpec::CkRewindOwn {
                         return Err("unsupported case: CkRewindOwn on a router post".into());
                     }
+                    if matches!(input, InputSpec::ToolEnv { tool: Tool::Damage(Target::SnapFile), .. }) {
+                        return Err("unsupported case: Damage(SnapFile) on a router post (the session id is not known before)".into());
+                    }
                     let mut body = json!({"content": input_text(input, i)});
                     if let Some(p) = provider {
                         body["openresponses"] = json!({"endpoint": urls[i].as_ref().unwrap(), "model": "scripted", "stateless_history": p.stateless});
@@ -1300,7 +1484,7 @@ async fn exec_case(c: &Case, root: &Path) -> Result<Exec, String> {
                     if st == 202 {
                         id.sid = v.get("session_id").and_then(|x| x.as_str()).map(|s| s.to_string());
                         id.mid = v.get("message_id").and_then(|x| x.as_str()).map(|s| s.to_string());
-                        runs_started += 1;
+                        runs_started.add(plan.snap_fails[i]);
                     }
                 }
                 Act::Input { input, .. } => {
@@ -1311,7 +1495,7 @@ async fn exec_case(c: &Case, root: &Path) -> Result<Exec, String> {
                     id.status = st;
                     id.sid = Some(sid);
                     if st == 202 {
-                        runs_started += 1;
+                        runs_started.add(plan.snap_fails[i]);
                     }
                 }
                 Act::Input2 { first, second, wait } => {
@@ -1401,9 +1585,21 @@ async fn exec_case(c: &Case, root: &Path) -> Result<Exec, String> {
         ids.push(Ids::default());
     }
     let log = read_log(&data);
+    // the harness's own expectation, checked: a snapshot write planned to fail left no readable snapshot of that run
+    // (an empty file after snap.write.body, no file otherwise), the others did
+    for (i, id) in ids.iter().enumerate() {
+        if let (true, Some(sid)) = (plan.any, &id.sid) {
+            let written = std::fs::read(data.join("snapshots").join(format!("{sid}.json"))).map(|b| !b.is_empty()).unwrap_or(false);
+            // (a tool that replaces the snapshot directory removes the earlier runs' snapshots with it)
+            let dir_replaced = c.acts.iter().any(|a| act_damage(a).contains(&Target::SnapDir));
+            if written == plan.snap_fails[i] && !(dir_replaced && !plan.snap_fails[i]) {
+                return Err(format!("failing side writes: the snapshot of activity {i} was {} although the case planned the opposite", if written { "written" } else { "not written" }));
+            }
+        }
+    }
     let asked: Vec<Option<usize>> = providers.iter().map(|p| p.as_ref().map(|sp| sp.recorded().len())).collect();
     drop(providers);
-    let panics = PANICS.lock().map(|g| g[snaps_before.1.min(g.len())..].to_vec()).unwrap_or_default();
+    let panics = PANICS.lock().map(|g| g[snaps_before.panics.min(g.len())..].to_vec()).unwrap_or_default();
     Ok(Exec { ids, preds, log, thread, hang, panics, asked })
 }
 
@@ -1412,8 +1608,9 @@ async fn exec_case(c: &Case, root: &Path) -> Result<Exec, String> {
 /// calibration store (tool envelope, unlinked session)
 type Calib = BTreeMap<Tool, (u64, u64)>;
 
-fn tool_out_term(t: Tool, res: &str) -> String {
-    format!("{{| t_auto := {}; t_res := {} |}}", t.auto(), res)
+/// `nock` = `.rip/checkpoints` is damaged: the auto checkpoint of a mutating tool fails
+fn tool_out_term(t: Tool, res: &str, nock: bool) -> String {
+    format!("{{| t_auto := {}; t_res := {} |}}", if nock && t.auto() == 1 { 2 } else { t.auto() }, res)
 }
 fn tool_res(t: Tool, cal: &Calib, expires: bool) -> String {
     if expires {
@@ -1437,10 +1634,10 @@ fn allowed(c: Choice, t: Tool) -> bool {
         Choice::NoTools | Choice::AllowedModeNone => false,
     }
 }
-fn call_term(t: Tool, ch: Choice, cal: &Calib) -> String {
-    format!("{{| c_allowed := {}; c_lock := {}; c_tool := {} |}}", coq_bool(allowed(ch, t)), coq_bool(t.lock()), tool_out_term(t, &tool_res(t, cal, false)))
+fn call_term(t: Tool, ch: Choice, cal: &Calib, nock: bool) -> String {
+    format!("{{| c_allowed := {}; c_lock := {}; c_tool := {} |}}", coq_bool(allowed(ch, t)), coq_bool(t.lock()), tool_out_term(t, &tool_res(t, cal, false), nock))
 }
-fn reqs_term(p: &ProviderSpec, preds: &[Pred], cal: &Calib) -> String {
+fn reqs_term(p: &ProviderSpec, preds: &[Pred], cal: &Calib, nock: bool) -> String {
     let mut out: Vec<String> = vec![];
     if choice_invalid(p.choice) {
         out.push("RInvalid".into());
@@ -1461,7 +1658,7 @@ fn reqs_term(p: &ProviderSpec, preds: &[Pred], cal: &Calib) -> String {
                     match s.class {
                         1 => "RFirstErr".into(),
                         2 => format!("(RMidErr {pf})"),
-                        _ => format!("(ROk {pf} {} {})", coq_bool(s.has_id), coq_list(&s.calls, |t| call_term(*t, p.choice, cal))),
+                        _ => format!("(ROk {pf} {} {})", coq_bool(s.has_id), coq_list(&s.calls, |t| call_term(*t, p.choice, cal, nock))),
                     }
                 }
             });
@@ -1469,10 +1666,10 @@ fn reqs_term(p: &ProviderSpec, preds: &[Pred], cal: &Calib) -> String {
     }
     coq_list(&out, |s| s.clone())
 }
-fn input_term(i: &InputSpec, p: Option<&ProviderSpec>, preds: &[Pred], cal: &Calib, compile_ok: bool) -> String {
+fn input_term(i: &InputSpec, p: Option<&ProviderSpec>, preds: &[Pred], cal: &Calib, compile_ok: bool, nock: bool) -> String {
     match i {
-        InputSpec::Prompt => format!("(IPrompt {} {})", coq_bool(compile_ok), match p { Some(p) => reqs_term(p, preds, cal), None => "[]".into() }),
-        InputSpec::ToolEnv { tool, tmo } => format!("(ITool {} {})", coq_bool(tool.lock()), tool_out_term(*tool, &tool_res(*tool, cal, *tmo == 2))),
+        InputSpec::Prompt => format!("(IPrompt {} {})", coq_bool(compile_ok), match p { Some(p) => reqs_term(p, preds, cal, nock), None => "[]".into() }),
+        InputSpec::ToolEnv { tool, tmo } => format!("(ITool {} {})", coq_bool(tool.lock()), tool_out_term(*tool, &tool_res(*tool, cal, *tmo == 2), nock)),
         InputSpec::CkCreate { ok } => format!("(ICheckpoint {})", if *ok { "CkCreatedOk" } else { "CkFail" }),
         InputSpec::CkRewindMissing => "(ICheckpoint CkFail)".into(),
         InputSpec::CkRewindOwn => "(ICheckpoint CkRewoundOk)".into(),
@@ -1506,6 +1703,7 @@ fn case_term(c: &Case, ex: &Exec, cal: &Calib) -> Option<String> {
         }
     }
     let idmap = IdMap(idmap);
+    let plan = side_plan(c);
     let cut_tools = read_cut_tool_ids(&ex.log);
     let njobs = ex.ids.iter().filter(|i| i.job.is_some()).count();
     let mut acts = vec![];
@@ -1539,7 +1737,7 @@ fn case_term(c: &Case, ex: &Exec, cal: &Calib) -> Option<String> {
                 for l in owned {
                     flat.extend(enc_line(l, &idmap, &cut_tools));
                 }
-                acts.push(format!("(AInput {} {} {})", cfg_term(None), num, input_term(input, None, &[], cal, true)));
+                acts.push(format!("(AInput {} {} {})", cfg_term(None), num, input_term(input, None, &[], cal, true, false)));
                 expects.push(coq_list_n(&flat));
             }
             continue;
@@ -1552,7 +1750,7 @@ fn case_term(c: &Case, ex: &Exec, cal: &Calib) -> Option<String> {
                 };
                 let (input, provider) = (&input, &provider);
                 let (Some(sid), Some(mid)) = (&id.sid, &id.mid) else { return None };
-                let t = format!("APost {} {} {} {}", cfg_term(provider.as_ref()), 200 + i, 100 + i, input_term(input, provider.as_ref(), &ex.preds[i], cal, !c.break_summaries));
+                let t = format!("APost {} {} {} {}", cfg_term(provider.as_ref()), 200 + i, 100 + i, input_term(input, provider.as_ref(), &ex.preds[i], cal, !c.break_summaries && !plan.no_artifacts[i], plan.no_checkpoints[i]));
                 let o = ex.log.iter().filter(|l| (l.is_session() && l.stream == *sid) || (l.is_cont() && ((l.ty == "continuity_message_appended" && l.id == *mid) || l.s("run_session_id") == *sid))).collect();
                 (t, o)
             }
@@ -1561,7 +1759,7 @@ fn case_term(c: &Case, ex: &Exec, cal: &Calib) -> Option<String> {
                 if id.status != 202 {
                     return None;
                 }
-                let t = format!("AInput {} {} {}", cfg_term(provider.as_ref()), 100 + i, input_term(input, provider.as_ref(), &ex.preds[i], cal, true));
+                let t = format!("AInput {} {} {}", cfg_term(provider.as_ref()), 100 + i, input_term(input, provider.as_ref(), &ex.preds[i], cal, true, plan.no_checkpoints[i]));
                 let o = ex.log.iter().filter(|l| l.is_session() && l.stream == *sid).collect();
                 (t, o)
             }
@@ -1571,7 +1769,7 @@ fn case_term(c: &Case, ex: &Exec, cal: &Calib) -> Option<String> {
                 if id.status != 202 || id.status2 == 202 {
                     return None;
                 }
-                let t = format!("AInput {} {} {}", cfg_term(None), 100 + i, input_term(first, None, &[], cal, true));
+                let t = format!("AInput {} {} {}", cfg_term(None), 100 + i, input_term(first, None, &[], cal, true, false));
                 let o = ex.log.iter().filter(|l| l.is_session() && l.stream == *sid).collect();
                 (t, o)
             }
@@ -1606,13 +1804,16 @@ fn case_term(c: &Case, ex: &Exec, cal: &Calib) -> Option<String> {
         expects.push(coq_list_n(&flat));
     }
     let faults: Vec<u64> = c.faults.iter().map(|f| f.code()).collect();
+    // the failing side writes of each run, under the number the run's session id has in the model
+    let swf: Vec<String> = plan.codes.iter().enumerate().filter(|(i, cs)| !cs.is_empty() && ex.ids.get(*i).map(|d| d.sid.is_some()).unwrap_or(false)).map(|(i, cs)| format!("({}, {})", 100 + i, coq_list_n(cs))).collect();
     Some(format!(
-        "{{| k_acts := {}; k_expect := {}; k_races := {}; k_faults := {}; k_drops := {} |}}",
+        "{{| k_acts := {}; k_expect := {}; k_races := {}; k_faults := {}; k_drops := {}; k_swf := {} |}}",
         coq_list(&acts, |s| s.clone()),
         coq_list(&expects, |s| s.clone()),
         coq_list(&races, |s| s.clone()),
         coq_list_n(&faults),
-        coq_list(&drops, |s| s.clone())
+        coq_list(&drops, |s| s.clone()),
+        coq_list(&swf, |s| s.clone())
     ))
 }
 
@@ -1695,7 +1896,7 @@ fn body_sweep(at: u32, r: &mut Rng) -> Vec<Case> {
             .into_iter()
             .map(|body| Act::Post { input: InputSpec::Prompt, provider: Some(ProviderSpec { stateless: false, choice: Choice::Auto, closed_port: false, forever: false, reqs: vec![Req::HttpBody { status: *r.pick(&ERR_STATUSES), body }] }) })
             .collect();
-        out.push(Case { faults: vec![], engine: w % 2 == 0, parallel: false, acts, break_summaries: false });
+        out.push(Case { faults: vec![], side_faults: vec![], engine: w % 2 == 0, parallel: false, acts, break_summaries: false });
     }
     out
 }
@@ -1814,7 +2015,7 @@ fn gen_case(r: &mut Rng, i: usize, caps: &[u32]) -> Case {
         // a summarizer job that fails: posts through the kernel stub (no tool writes artifacts), then the job
         let mut acts: Vec<Act> = (0..r.range(1, 3)).map(|_| Act::Post { input: InputSpec::Prompt, provider: None }).collect();
         acts.push(Act::Job { stride: 1, max_new: r.range(1, 3), fail: true, early_err: false });
-        return Case { faults: vec![], engine: false, parallel: false, acts, break_summaries: false };
+        return Case { faults: vec![], side_faults: vec![], engine: false, parallel: false, acts, break_summaries: false };
     }
     if i % 25 == 19 {
         // posts whose clients hang up (with and without a contended session map), among ordinary posts
@@ -1823,7 +2024,7 @@ fn gen_case(r: &mut Rng, i: usize, caps: &[u32]) -> Case {
             acts.push(if r.chance(1, 2) { Act::PostDrop { hold: r.chance(2, 3) } } else { Act::Post { input: gen_input_router(r), provider: None } });
         }
         acts.push(Act::PostDrop { hold: true });
-        return Case { faults: vec![], engine: false, parallel: false, acts, break_summaries: false };
+        return Case { faults: vec![], side_faults: vec![], engine: false, parallel: false, acts, break_summaries: false };
     }
     let engine = i % 3 == 2;
     if i % 25 == 11 {
@@ -1834,7 +2035,7 @@ fn gen_case(r: &mut Rng, i: usize, caps: &[u32]) -> Case {
         if r.chance(1, 2) {
             acts.push(Act::Post { input: InputSpec::Prompt, provider: None });
         }
-        return Case { faults: vec![], engine, parallel: false, acts, break_summaries: false };
+        return Case { faults: vec![], side_faults: vec![], engine, parallel: false, acts, break_summaries: false };
     }
     let nacts = *r.pick(&[1usize, 1, 1, 2, 2, 3]);
     let parallel = nacts > 1 && r.chance(2, 3);
@@ -1879,7 +2080,10 @@ fn gen_case(r: &mut Rng, i: usize, caps: &[u32]) -> Case {
     let mut faults: Vec<Fault> = if r.chance(1, 7) { (0..r.range(1, 2)).map(|_| *r.pick(&FAULTS)).collect() } else { vec![] };
     faults.sort();
     faults.dedup();
-    Case { faults, engine, parallel, acts, break_summaries }
+    // … and now and then every snapshot write of the case fails (the runs' closing frames do not depend on it)
+    let plain = acts.iter().all(|a| matches!(a, Act::Post { .. } | Act::Input { .. }));
+    let side_faults = if plain && r.chance(1, 9) { vec![*r.pick(&[SideFault::SnapWrite, SideFault::SnapWriteBody])] } else { vec![] };
+    Case { faults, side_faults, engine, parallel, acts, break_summaries }
 }
 
 fn text_req(events: Vec<Sse>) -> Req {
@@ -1890,56 +2094,128 @@ fn corpus() -> Vec<Case> {
     let post = |reqs: Vec<Req>| Act::Post { input: InputSpec::Prompt, provider: Some(p(reqs, false, Choice::Auto)) };
     vec![
         // text only
-        Case { faults: vec![], break_summaries: false, engine: false, parallel: false, acts: vec![post(vec![text_req(vec![Sse::Created { id: true }, Sse::Delta, Sse::Delta, Sse::Completed { id: true }])])] },
+        Case { faults: vec![], side_faults: vec![], break_summaries: false, engine: false, parallel: false, acts: vec![post(vec![text_req(vec![Sse::Created { id: true }, Sse::Delta, Sse::Delta, Sse::Completed { id: true }])])] },
         // no provider at all (kernel stub)
-        Case { faults: vec![], break_summaries: false, engine: false, parallel: false, acts: vec![Act::Post { input: InputSpec::Prompt, provider: None }] },
+        Case { faults: vec![], side_faults: vec![], break_summaries: false, engine: false, parallel: false, acts: vec![Act::Post { input: InputSpec::Prompt, provider: None }] },
         // one tool round with a workspace-mutating tool, then text: selection, compiled, side effects, cursor
-        Case { faults: vec![], break_summaries: false, engine: false, parallel: false, acts: vec![post(vec![text_req(vec![Sse::Created { id: true }, Sse::Call(Tool::WriteOk), Sse::Call(Tool::Ls)]), text_req(vec![Sse::Created { id: true }, Sse::Delta])])] },
+        Case { faults: vec![], side_faults: vec![], break_summaries: false, engine: false, parallel: false, acts: vec![post(vec![text_req(vec![Sse::Created { id: true }, Sse::Call(Tool::WriteOk), Sse::Call(Tool::Ls)]), text_req(vec![Sse::Created { id: true }, Sse::Delta])])] },
         // tool round without a response id: provider_error
-        Case { faults: vec![], break_summaries: false, engine: false, parallel: false, acts: vec![post(vec![text_req(vec![Sse::Created { id: false }, Sse::Call(Tool::BashEcho)])])] },
+        Case { faults: vec![], side_faults: vec![], break_summaries: false, engine: false, parallel: false, acts: vec![post(vec![text_req(vec![Sse::Created { id: false }, Sse::Call(Tool::BashEcho)])])] },
         // every early exit of one request
-        Case { faults: vec![], break_summaries: false, engine: false, parallel: false, acts: vec![post(vec![Req::Http(500)]), post(vec![Req::Empty]), post(vec![Req::Stream { events: vec![Sse::Created { id: true }, Sse::Delta], done: true, partial_tail: false, cuts: vec![], drop_at: Some(0) }])] },
-        Case { faults: vec![], break_summaries: false, engine: false, parallel: false, acts: vec![post(vec![Req::Stream { events: vec![Sse::Created { id: true }, Sse::Delta, Sse::Delta], done: true, partial_tail: false, cuts: vec![500], drop_at: Some(150) }])] },
+        Case { faults: vec![], side_faults: vec![], break_summaries: false, engine: false, parallel: false, acts: vec![post(vec![Req::Http(500)]), post(vec![Req::Empty]), post(vec![Req::Stream { events: vec![Sse::Created { id: true }, Sse::Delta], done: true, partial_tail: false, cuts: vec![], drop_at: Some(0) }])] },
+        Case { faults: vec![], side_faults: vec![], break_summaries: false, engine: false, parallel: false, acts: vec![post(vec![Req::Stream { events: vec![Sse::Created { id: true }, Sse::Delta, Sse::Delta], done: true, partial_tail: false, cuts: vec![500], drop_at: Some(150) }])] },
         // envelopes, linked and not
-        Case { faults: vec![], break_summaries: false, engine: false, parallel: true, acts: vec![Act::Post { input: InputSpec::ToolEnv { tool: Tool::WriteOk, tmo: 0 }, provider: None }, Act::Input { input: InputSpec::ToolEnv { tool: Tool::BashSleep, tmo: 2 }, provider: None }, Act::Post { input: InputSpec::CkCreate { ok: true }, provider: None }] },
+        Case { faults: vec![], side_faults: vec![], break_summaries: false, engine: false, parallel: true, acts: vec![Act::Post { input: InputSpec::ToolEnv { tool: Tool::WriteOk, tmo: 0 }, provider: None }, Act::Input { input: InputSpec::ToolEnv { tool: Tool::BashSleep, tmo: 2 }, provider: None }, Act::Post { input: InputSpec::CkCreate { ok: true }, provider: None }] },
         // restricted / barred / invalid tool_choice (engine)
-        Case { faults: vec![], break_summaries: false, engine: true, parallel: false, acts: vec![Act::Post { input: InputSpec::Prompt, provider: Some(p(vec![text_req(vec![Sse::Created { id: true }, Sse::Call(Tool::Ls), Sse::Call(Tool::BashEcho)]), text_req(vec![Sse::Delta])], false, Choice::OnlyLs)) }] },
-        Case { faults: vec![], break_summaries: false, engine: true, parallel: false, acts: vec![Act::Post { input: InputSpec::Prompt, provider: Some(p(vec![text_req(vec![Sse::Delta])], false, Choice::Invalid)) }] },
+        Case { faults: vec![], side_faults: vec![], break_summaries: false, engine: true, parallel: false, acts: vec![Act::Post { input: InputSpec::Prompt, provider: Some(p(vec![text_req(vec![Sse::Created { id: true }, Sse::Call(Tool::Ls), Sse::Call(Tool::BashEcho)]), text_req(vec![Sse::Delta])], false, Choice::OnlyLs)) }] },
+        Case { faults: vec![], side_faults: vec![], break_summaries: false, engine: true, parallel: false, acts: vec![Act::Post { input: InputSpec::Prompt, provider: Some(p(vec![text_req(vec![Sse::Delta])], false, Choice::Invalid)) }] },
         // parallel runs on one thread + a job
-        Case { faults: vec![], break_summaries: false, engine: false, parallel: true, acts: vec![post(vec![text_req(vec![Sse::Created { id: true }, Sse::Call(Tool::BashEcho)]), text_req(vec![Sse::Delta])]), post(vec![text_req(vec![Sse::Delta])]), Act::Post { input: InputSpec::Prompt, provider: None }, Act::Job { stride: 1, max_new: 2, fail: false, early_err: false }] },
+        Case { faults: vec![], side_faults: vec![], break_summaries: false, engine: false, parallel: true, acts: vec![post(vec![text_req(vec![Sse::Created { id: true }, Sse::Call(Tool::BashEcho)]), text_req(vec![Sse::Delta])]), post(vec![text_req(vec![Sse::Delta])]), Act::Post { input: InputSpec::Prompt, provider: None }, Act::Job { stride: 1, max_new: 2, fail: false, early_err: false }] },
         // context compilation fails (summary artifact gone): the run ends with context_compile_failed, run_ended follows
-        Case { faults: vec![], break_summaries: true, engine: false, parallel: false, acts: vec![post(vec![text_req(vec![Sse::Delta])]), Act::Post { input: InputSpec::Prompt, provider: None }, Act::Post { input: InputSpec::ToolEnv { tool: Tool::WriteOk, tmo: 0 }, provider: None }] },
+        Case { faults: vec![], side_faults: vec![], break_summaries: true, engine: false, parallel: false, acts: vec![post(vec![text_req(vec![Sse::Delta])]), Act::Post { input: InputSpec::Prompt, provider: None }, Act::Post { input: InputSpec::ToolEnv { tool: Tool::WriteOk, tmo: 0 }, provider: None }] },
         // a job whose summarizer fails: job_ended(failed), once
-        Case { faults: vec![], break_summaries: false, engine: false, parallel: false, acts: vec![Act::Post { input: InputSpec::Prompt, provider: None }, Act::Job { stride: 1, max_new: 2, fail: true, early_err: false }] },
+        Case { faults: vec![], side_faults: vec![], break_summaries: false, engine: false, parallel: false, acts: vec![Act::Post { input: InputSpec::Prompt, provider: None }, Act::Job { stride: 1, max_new: 2, fail: true, early_err: false }] },
         // a job whose task cannot replay the thread: job_spawned, then nothing (ended zero times - at most once holds)
-        Case { faults: vec![], break_summaries: false, engine: false, parallel: false, acts: vec![Act::Post { input: InputSpec::Prompt, provider: None }, Act::Post { input: InputSpec::Prompt, provider: None }, Act::Job { stride: 1, max_new: 2, fail: false, early_err: true }] },
+        Case { faults: vec![], side_faults: vec![], break_summaries: false, engine: false, parallel: false, acts: vec![Act::Post { input: InputSpec::Prompt, provider: None }, Act::Post { input: InputSpec::Prompt, provider: None }, Act::Job { stride: 1, max_new: 2, fail: false, early_err: true }] },
         // S6: two inputs on one session
-        Case { faults: vec![], break_summaries: false, engine: false, parallel: false, acts: vec![Act::Input2 { first: InputSpec::Prompt, second: InputSpec::Prompt, wait: true }] },
-        Case { faults: vec![], break_summaries: false, engine: false, parallel: false, acts: vec![Act::Input2 { first: InputSpec::ToolEnv { tool: Tool::BashEcho, tmo: 0 }, second: InputSpec::Prompt, wait: false }, Act::Post { input: InputSpec::Prompt, provider: None }] },
+        Case { faults: vec![], side_faults: vec![], break_summaries: false, engine: false, parallel: false, acts: vec![Act::Input2 { first: InputSpec::Prompt, second: InputSpec::Prompt, wait: true }] },
+        Case { faults: vec![], side_faults: vec![], break_summaries: false, engine: false, parallel: false, acts: vec![Act::Input2 { first: InputSpec::ToolEnv { tool: Tool::BashEcho, tmo: 0 }, second: InputSpec::Prompt, wait: false }, Act::Post { input: InputSpec::Prompt, provider: None }] },
         // a session rewinds a checkpoint filed under its own id: checkpoint_rewound
-        Case { faults: vec![], break_summaries: false, engine: false, parallel: false, acts: vec![Act::Input { input: InputSpec::CkRewindOwn, provider: None }] },
-        Case { faults: vec![], break_summaries: false, engine: true, parallel: false, acts: vec![Act::Post { input: InputSpec::CkRewindOwn, provider: None }, Act::Input { input: InputSpec::CkRewindOwn, provider: None }] },
+        Case { faults: vec![], side_faults: vec![], break_summaries: false, engine: false, parallel: false, acts: vec![Act::Input { input: InputSpec::CkRewindOwn, provider: None }] },
+        Case { faults: vec![], side_faults: vec![], break_summaries: false, engine: true, parallel: false, acts: vec![Act::Post { input: InputSpec::CkRewindOwn, provider: None }, Act::Input { input: InputSpec::CkRewindOwn, provider: None }] },
         // AppendOk is necessary (c07_end_dropped_when_append_fails_refuted, replayed): run_ended cannot be appended
-        Case { faults: vec![Fault::RunEnded], break_summaries: false, engine: false, parallel: false, acts: vec![Act::Post { input: InputSpec::Prompt, provider: None }] },
+        Case { side_faults: vec![], faults: vec![Fault::RunEnded], break_summaries: false, engine: false, parallel: false, acts: vec![Act::Post { input: InputSpec::Prompt, provider: None }] },
         // every thread append of a full run fails in turn: the session stream and the other thread frames are untouched
-        Case { faults: vec![Fault::Selection, Fault::SideEffects], break_summaries: false, engine: false, parallel: false, acts: vec![post(vec![text_req(vec![Sse::Created { id: true }, Sse::Call(Tool::WriteOk)]), text_req(vec![Sse::Created { id: true }, Sse::Delta])])] },
-        Case { faults: vec![Fault::Compiled, Fault::Cursor, Fault::RunEnded], break_summaries: false, engine: false, parallel: false, acts: vec![post(vec![text_req(vec![Sse::Created { id: true }, Sse::Call(Tool::WriteOk)]), text_req(vec![Sse::Created { id: true }, Sse::Delta])]), Act::Post { input: InputSpec::ToolEnv { tool: Tool::BashEcho, tmo: 0 }, provider: None }] },
+        Case { side_faults: vec![], faults: vec![Fault::Selection, Fault::SideEffects], break_summaries: false, engine: false, parallel: false, acts: vec![post(vec![text_req(vec![Sse::Created { id: true }, Sse::Call(Tool::WriteOk)]), text_req(vec![Sse::Created { id: true }, Sse::Delta])])] },
+        Case { side_faults: vec![], faults: vec![Fault::Compiled, Fault::Cursor, Fault::RunEnded], break_summaries: false, engine: false, parallel: false, acts: vec![post(vec![text_req(vec![Sse::Created { id: true }, Sse::Call(Tool::WriteOk)]), text_req(vec![Sse::Created { id: true }, Sse::Delta])]), Act::Post { input: InputSpec::ToolEnv { tool: Tool::BashEcho, tmo: 0 }, provider: None }] },
         // concurrent inputs to one session, forced through the guard point: one run
-        Case { faults: vec![], break_summaries: false, engine: true, parallel: false, acts: vec![Act::InputRace { rounds: 2, n: 2, input: InputSpec::Prompt, stepped: true }] },
-        Case { faults: vec![], break_summaries: false, engine: false, parallel: false, acts: vec![Act::InputRace { rounds: 2, n: 2, input: InputSpec::Prompt, stepped: true }] },
+        Case { faults: vec![], side_faults: vec![], break_summaries: false, engine: true, parallel: false, acts: vec![Act::InputRace { rounds: 2, n: 2, input: InputSpec::Prompt, stepped: true }] },
+        Case { faults: vec![], side_faults: vec![], break_summaries: false, engine: false, parallel: false, acts: vec![Act::InputRace { rounds: 2, n: 2, input: InputSpec::Prompt, stepped: true }] },
         // a long localized error page: 'x' then 2-byte characters, a character straddles offset 2048
-        Case { faults: vec![], break_summaries: false, engine: false, parallel: false, acts: vec![post(vec![Req::HttpBody { status: 502, body: BodySpec { prefix: 1, cp: 0xE9, count: 4000, tail: 0 } }])] },
+        Case { faults: vec![], side_faults: vec![], break_summaries: false, engine: false, parallel: false, acts: vec![post(vec![Req::HttpBody { status: 502, body: BodySpec { prefix: 1, cp: 0xE9, count: 4000, tail: 0 } }])] },
         // the client of a post hangs up while the handler is suspended at the session map's lock (and, uncontended, never suspends)
-        Case { faults: vec![], break_summaries: false, engine: false, parallel: false, acts: vec![Act::Post { input: InputSpec::Prompt, provider: None }, Act::PostDrop { hold: true }, Act::PostDrop { hold: false }, Act::Post { input: InputSpec::Prompt, provider: None }] },
+        Case { faults: vec![], side_faults: vec![], break_summaries: false, engine: false, parallel: false, acts: vec![Act::Post { input: InputSpec::Prompt, provider: None }, Act::PostDrop { hold: true }, Act::PostDrop { hold: false }, Act::Post { input: InputSpec::Prompt, provider: None }] },
         // tool-call limit: 3 rounds of 12 calls
-        Case { faults: vec![], break_summaries: false, engine: false, parallel: false, acts: vec![post((0..4).map(|_| text_req(std::iter::once(Sse::Created { id: true }).chain((0..12).map(|_| Sse::Call(Tool::Ls))).collect())).collect())] },
+        Case { faults: vec![], side_faults: vec![], break_summaries: false, engine: false, parallel: false, acts: vec![post((0..4).map(|_| text_req(std::iter::once(Sse::Created { id: true }).chain((0..12).map(|_| Sse::Call(Tool::Ls))).collect())).collect())] },
     ]
+}
+
+/// Run lifecycle under FAILING side writes.  The best-effort writes a run makes besides the log - the snapshot at its exit
+/// (`<data>/snapshots/<session>.json`), the thread's sidecar / index caches (`<data>/continuity_streams`), context bundle
+/// artifacts (`<ws>/.rip/artifacts`), auto checkpoints (`<ws>/.rip/checkpoints`) - are made to fail
+///  (a) by the run's OWN tool, which puts a regular file where the directory should be (as a `bash` envelope of a linked
+///      run, as a function call a provider asks for, from an unlinked session), or a directory where the snapshot file
+///      should be (this run only);
+///  (b) through the fail points `snap.write` / `snap.write.body` for every run of the case.
+/// A case = [an ordinary run]? ; the damaging run ; two later runs ON THE SAME THREAD (kernel stub, provider text, provider
+/// tool round, envelopes, a provider error), one after the other.  The oracle is the usual one: every run announced on the
+/// thread has exactly one run_ended after its run_spawned and after its own terminal session frame - the damaging run and
+/// every later one.
+fn side_write_cases(r: &mut Rng, thorough: bool) -> Vec<Case> {
+    let prov = |reqs: Vec<Req>| Some(ProviderSpec { stateless: false, choice: Choice::Auto, closed_port: false, forever: false, reqs });
+    let text = || text_req(vec![Sse::Created { id: true }, Sse::Delta, Sse::Completed { id: true }]);
+    let next = |k: u64| -> Act {
+        match k % 7 {
+            0 => Act::Post { input: InputSpec::Prompt, provider: None },
+            1 => Act::Post { input: InputSpec::Prompt, provider: prov(vec![text()]) },
+            2 => Act::Post { input: InputSpec::Prompt, provider: prov(vec![text_req(vec![Sse::Created { id: true }, Sse::Call(Tool::WriteOk), Sse::Call(Tool::Ls)]), text()]) },
+            3 => Act::Post { input: InputSpec::ToolEnv { tool: Tool::WriteOk, tmo: 0 }, provider: None },
+            4 => Act::Post { input: InputSpec::ToolEnv { tool: Tool::BashEcho, tmo: 1 }, provider: None },
+            5 => Act::Input { input: InputSpec::ToolEnv { tool: Tool::Ls, tmo: 0 }, provider: None },
+            _ => Act::Post { input: InputSpec::Prompt, provider: prov(vec![Req::Http(500)]) },
+        }
+    };
+    let mut out = vec![];
+    let mut k = r.below(7);
+    for t in DIR_TARGETS {
+        for delivery in 0..3u8 {
+            for engine in [false, true] {
+                let damage = match delivery {
+                    0 => Act::Post { input: InputSpec::ToolEnv { tool: Tool::Damage(t), tmo: 0 }, provider: None },
+                    1 => Act::Post { input: InputSpec::Prompt, provider: prov(vec![text_req(vec![Sse::Created { id: true }, Sse::Call(Tool::Damage(t))]), text()]) },
+                    _ => Act::Input { input: InputSpec::ToolEnv { tool: Tool::Damage(t), tmo: 0 }, provider: None },
+                };
+                let variants = if thorough { 4 } else { 1 };
+                for _ in 0..variants {
+                    let mut acts = vec![];
+                    if k % 2 == 0 {
+                        acts.push(next(k / 2));
+                    }
+                    acts.push(damage.clone());
+                    acts.push(next(k));
+                    acts.push(next(k + 1 + k / 7));
+                    k += 1;
+                    // an unlinked session's provider would be the router's app-level default: keep those runs provider-less there
+                    out.push(Case { faults: vec![], side_faults: vec![], engine, parallel: false, acts, break_summaries: false });
+                }
+            }
+        }
+    }
+    // the snapshot FILE of this run cannot be created (a directory of that name): this run only, the next ones write theirs
+    for (engine, linked) in [(true, true), (true, false), (false, false)] {
+        let input = InputSpec::ToolEnv { tool: Tool::Damage(Target::SnapFile), tmo: 0 };
+        let damage = if linked { Act::Post { input, provider: None } } else { Act::Input { input, provider: None } };
+        out.push(Case { faults: vec![], side_faults: vec![], engine, parallel: false, acts: vec![next(k), damage, next(k + 1), next(k + 3)], break_summaries: false });
+        k += 1;
+    }
+    // through the fail points: every run of the case, also all at once, also with a failing thread append next to it
+    for sf in [SideFault::SnapWrite, SideFault::SnapWriteBody] {
+        for engine in [false, true] {
+            for parallel in [false, true] {
+                let acts = vec![next(k), next(k + 2), next(k + 3)];
+                k += 1;
+                let faults = if parallel && engine { vec![Fault::Cursor] } else { vec![] };
+                out.push(Case { faults, side_faults: vec![sf], engine, parallel, acts, break_summaries: false });
+            }
+        }
+    }
+    out
 }
 
 fn calibrate(rt: &tokio::runtime::Runtime) -> Calib {
     let sc = Scratch::new("c07cal");
     let acts: Vec<Act> = CALL_TOOLS.iter().map(|t| Act::Input { input: InputSpec::ToolEnv { tool: *t, tmo: 0 }, provider: None }).collect();
-    let c = Case { faults: vec![], engine: true, parallel: false, acts, break_summaries: false };
+    let c = Case { faults: vec![], side_faults: vec![], engine: true, parallel: false, acts, break_summaries: false };
     let ex = rt.block_on(exec_case(&c, sc.path())).expect("calibration store");
     let mut cal = Calib::new();
     for (t, id) in CALL_TOOLS.iter().zip(&ex.ids) {
@@ -1947,6 +2223,17 @@ fn calibrate(rt: &tokio::runtime::Runtime) -> Calib {
         let o = ex.log.iter().filter(|l| l.stream == sid && l.ty == "tool_stdout").count() as u64;
         let e = ex.log.iter().filter(|l| l.stream == sid && l.ty == "tool_stderr").count() as u64;
         cal.insert(*t, (o, e));
+    }
+    // the damaging commands, each on a store of its own (engine route: the session id is known when the input is written)
+    for t in DIR_TARGETS.iter().chain(std::iter::once(&Target::SnapFile)) {
+        let sc = Scratch::new("c07cal");
+        let tool = Tool::Damage(*t);
+        let c = Case { faults: vec![], side_faults: vec![], engine: true, parallel: false, acts: vec![Act::Input { input: InputSpec::ToolEnv { tool, tmo: 0 }, provider: None }], break_summaries: false };
+        let ex = rt.block_on(exec_case(&c, sc.path())).expect("calibration store");
+        let sid = ex.ids[0].sid.clone().unwrap_or_default();
+        let o = ex.log.iter().filter(|l| l.stream == sid && l.ty == "tool_stdout").count() as u64;
+        let e = ex.log.iter().filter(|l| l.stream == sid && l.ty == "tool_stderr").count() as u64;
+        cal.insert(tool, (o, e));
     }
     cal
 }
@@ -1959,6 +2246,14 @@ fn label(c: &Case) -> Vec<String> {
     for f in &c.faults {
         v.push(format!("append-fails={f:?}"));
     }
+    for f in &c.side_faults {
+        v.push(format!("side-write-fails={f:?}(fail point)"));
+    }
+    for a in &c.acts {
+        for t in act_damage(a) {
+            v.push(format!("side-write-fails={t:?}(damaged by the run's tool: {})", match a { Act::Input { .. } => "unlinked envelope", Act::Post { input: InputSpec::Prompt, .. } => "provider call", _ => "linked envelope" }));
+        }
+    }
     for a in &c.acts {
         match a {
             Act::Post { input, provider } | Act::Input { input, provider } => {
@@ -1967,6 +2262,7 @@ fn label(c: &Case) -> Vec<String> {
                     InputSpec::Prompt => "input=prompt".to_string(),
                     InputSpec::ToolEnv { tmo: 2, .. } => "input=tool-timeout".to_string(),
                     InputSpec::ToolEnv { tool: Tool::ReadCut(_), .. } => "input=tool-ReadCut".to_string(),
+                    InputSpec::ToolEnv { tool: Tool::Damage(_), .. } => "input=tool-Damage".to_string(),
                     InputSpec::ToolEnv { tool, .. } => format!("input=tool-{tool:?}"),
                     InputSpec::CkCreate { ok } => format!("input=checkpoint-create-{ok}"),
                     InputSpec::CkRewindMissing => "input=checkpoint-rewind-missing".to_string(),
@@ -2004,6 +2300,7 @@ fn label(c: &Case) -> Vec<String> {
                                         Sse::Malformed => v.push("event=malformed-json".into()),
                                         Sse::SchemaInvalid => v.push("event=schema-invalid".into()),
                                         Sse::Call(Tool::ReadCut(_)) => v.push("call=ReadCut".into()),
+                                        Sse::Call(Tool::Damage(_)) => v.push("call=Damage".into()),
                                         Sse::Call(t) => v.push(format!("call={t:?}")),
                                         _ => {}
                                     }
@@ -2035,6 +2332,7 @@ fn main() {
     }
     let cfg_home = Scratch::new("c07cfg");
     std::env::set_var("RIP_CONFIG_HOME", cfg_home.path());
+    rip_kernel::verif::set_fail_hook(Some(Arc::new(fail_hook)));
     rip_kernel::verif::set_hook(Some(Arc::new(|name: &'static str| {
         if name == "snap.flushed" {
             SNAPS.fetch_add(1, Ordering::SeqCst);
@@ -2062,7 +2360,7 @@ fn main() {
         }
     }));
     let mut res = RunResult::new("C07", &a);
-    res.rule = "case = fresh store + 1..4 activities (linked runs through POST /threads/{id}/messages or the engine, unlinked session inputs, a compaction job), sequential or all at once; each prompt run talks to its own scripted provider (text, 1-3 tool rounds, malformed JSON, schema-invalid events, 4xx/5xx, drop at byte k, missing [DONE], partial tail, empty body, connect refused, invalid request; tools ok/failing/unknown/invalid args/barred by tool_choice/timeout; tool and checkpoint envelopes; a provider that answers every request with the same tool round for ever x tool_choice auto/required/named function/allowed_tools/none x both history modes); non-trivial = a provider or envelope run; distinct by hash of the canonical case".into();
+    res.rule = "case = fresh store + 1..4 activities (linked runs through POST /threads/{id}/messages or the engine, unlinked session inputs, a compaction job), sequential or all at once; each prompt run talks to its own scripted provider (text, 1-3 tool rounds, malformed JSON, schema-invalid events, 4xx/5xx, drop at byte k, missing [DONE], partial tail, empty body, connect refused, invalid request; tools ok/failing/unknown/invalid args/barred by tool_choice/timeout; tool and checkpoint envelopes; a provider that answers every request with the same tool round for ever x tool_choice auto/required/named function/allowed_tools/none x both history modes; failing side writes at the end of a run - snapshot, thread caches, artifacts, checkpoints - by the run's own bash tool replacing the target path or through the fail points snap.write / snap.write.body, followed by later runs on the same thread); non-trivial = a provider or envelope run; distinct by hash of the canonical case".into();
     let rt = tokio::runtime::Builder::new_multi_thread().worker_threads(4).enable_all().build().expect("runtime");
     let cal = calibrate(&rt);
     res.notes.push(format!("tool calibration (stdout, stderr frames): {cal:?}"));
@@ -2098,18 +2396,22 @@ fn main() {
         }
         let caps: Vec<u32> = caps.into_iter().collect();
         res.notes.push(format!("cut offsets swept: {caps:?} (integer literals found on the run path: {lits:?})"));
-        for i in 0..n {
-            cases.push(gen_case(&mut r, i, &caps));
+        // (the failing-input search after a broken obligation runs the targeted classes first and the random cases last)
+        let mut random_cases: Vec<Case> = (0..n).map(|i| gen_case(&mut r, i, &caps)).collect();
+        if !a.oracle_only() {
+            cases.append(&mut random_cases);
         }
+        // run lifecycle under failing side writes (snapshot, thread caches, artifacts, checkpoints)
+        cases.extend(side_write_cases(&mut r, a.thorough()));
         for at in &caps {
             cases.extend(body_sweep(*at, &mut r));
         }
         // concurrent inputs: raced (many rounds) and stepped, through the engine and through the router
         for engine in [true, false] {
             let rounds = if a.thorough() { 400 } else { 60 };
-            cases.push(Case { faults: vec![], engine, parallel: false, break_summaries: false, acts: vec![Act::InputRace { rounds, n: 2, input: InputSpec::Prompt, stepped: false }] });
-            cases.push(Case { faults: vec![], engine, parallel: false, break_summaries: false, acts: vec![Act::InputRace { rounds: rounds / 3, n: 4, input: InputSpec::Prompt, stepped: false }] });
-            cases.push(Case { faults: vec![], engine, parallel: false, break_summaries: false, acts: vec![Act::InputRace { rounds: 3, n: 3, input: InputSpec::ToolEnv { tool: Tool::BashEcho, tmo: 0 }, stepped: true }] });
+            cases.push(Case { faults: vec![], side_faults: vec![], engine, parallel: false, break_summaries: false, acts: vec![Act::InputRace { rounds, n: 2, input: InputSpec::Prompt, stepped: false }] });
+            cases.push(Case { faults: vec![], side_faults: vec![], engine, parallel: false, break_summaries: false, acts: vec![Act::InputRace { rounds: rounds / 3, n: 4, input: InputSpec::Prompt, stepped: false }] });
+            cases.push(Case { faults: vec![], side_faults: vec![], engine, parallel: false, break_summaries: false, acts: vec![Act::InputRace { rounds: 3, n: 3, input: InputSpec::ToolEnv { tool: Tool::BashEcho, tmo: 0 }, stepped: true }] });
         }
         // a provider that never stops: every tool_choice shape x both history modes x (one call / a mixed round / three
         // calls), linked through the engine; and through the router as the app-level default of an unlinked session.
@@ -2125,7 +2427,7 @@ fn main() {
                     let linked = (ci + k) % 2 == 0;
                     let act = if linked { Act::Post { input: InputSpec::Prompt, provider: Some(p) } } else { Act::Input { input: InputSpec::Prompt, provider: Some(p) } };
                     // unlinked runs go through the router now and then (the tool_choice then comes from the app-level default)
-                    cases.push(Case { faults: vec![], engine: linked || k == 0, parallel: false, break_summaries: false, acts: vec![act] });
+                    cases.push(Case { faults: vec![], side_faults: vec![], engine: linked || k == 0, parallel: false, break_summaries: false, acts: vec![act] });
                 }
             }
         }
@@ -2133,7 +2435,7 @@ fn main() {
         let ks: Vec<u8> = (0..=78u8).filter(|k| a.thorough() || (*k as u64 + a.seed) % 5 == 0).collect();
         for chunk in ks.chunks(4) {
             let acts = chunk.iter().map(|k| Act::Input { input: InputSpec::ToolEnv { tool: Tool::ReadCut(*k), tmo: 0 }, provider: None }).collect();
-            cases.push(Case { faults: vec![], engine: true, parallel: false, break_summaries: false, acts });
+            cases.push(Case { faults: vec![], side_faults: vec![], engine: true, parallel: false, break_summaries: false, acts });
         }
         // single-fault sweep: the connection drops at every event boundary (-1, 0, +1) and at every 9th byte of
         // the first and of the second response of a base conversation (quick: 2 bases, thorough: 20)
@@ -2167,14 +2469,28 @@ fn main() {
                     let mk = |events: &Vec<Sse>, drop_at: Option<u64>| Req::Stream { events: events.clone(), done: true, partial_tail: false, cuts: if k % 2 == 0 { vec![333, 666] } else { vec![] }, drop_at };
                     let reqs = if which == 0 { vec![mk(&ev0, Some(k)), mk(&ev1, None)] } else { vec![mk(&ev0, None), mk(&ev1, Some(k))] };
                     let p = ProviderSpec { stateless: b % 3 == 0, choice: Choice::Auto, closed_port: false, forever: false, reqs };
-                    cases.push(Case { faults: vec![], engine: false, parallel: false, break_summaries: false, acts: vec![Act::Post { input: InputSpec::Prompt, provider: Some(p) }] });
+                    cases.push(Case { faults: vec![], side_faults: vec![], engine: false, parallel: false, break_summaries: false, acts: vec![Act::Post { input: InputSpec::Prompt, provider: Some(p) }] });
                 }
             }
         }
+        cases.append(&mut random_cases);
     }
+    // The failing-input search (`--oracle-only 1`: ./check runs it after a broken obligation / disagreement, thorough
+    // generator) is BOUNDED: it stops after SEARCH_STOP_AFTER oracle violations (one is enough for the verdict) and it
+    // starts no new case after SEARCH_BUDGET of wall time - a search is not a verdict: the tree is red either way, the
+    // budget only decides whether the red verdict carries a concrete input.  (The ordinary quick / thorough runs are not
+    // bounded.)  Within a case the waits shrink once a run was seen to hang or to lose its closing frame.
+    const SEARCH_BUDGET: Duration = Duration::from_secs(240);
+    const SEARCH_STOP_AFTER: usize = 3;
+    let t_search = Instant::now();
+    let total_cases = cases.len();
     let mut w = CaseWriter::new(&a.out, "Model.RunLifecycle", "check_case", "model_obs", 60);
     let mut distinct = Distinct::default();
     for (i, c) in cases.iter().enumerate() {
+        if a.oracle_only() && (res.oracle_violations.len() >= SEARCH_STOP_AFTER || t_search.elapsed() > SEARCH_BUDGET) {
+            res.notes.push(format!("search stopped after {i} of {total_cases} cases ({} oracle violations, {:.0} s; bounds: {SEARCH_STOP_AFTER} violations / {SEARCH_BUDGET:?})", res.oracle_violations.len(), t_search.elapsed().as_secs_f64()));
+            break;
+        }
         let sc = Scratch::new("c07");
         let got = std::panic::catch_unwind(std::panic::AssertUnwindSafe(|| rt.block_on(exec_case(c, sc.path()))));
         res.evaluations += 1;
@@ -2189,7 +2505,7 @@ fn main() {
                 continue;
             }
             Ok(Err(e)) => {
-                res.bump("skipped(harness-io)");
+                res.bump(if e.starts_with("failing side writes:") { "skipped(side-write plan not met)" } else { "skipped(harness-io)" });
                 if res.notes.len() < 20 {
                     res.notes.push(format!("case {i} not run: {e}"));
                 }
@@ -2291,7 +2607,7 @@ fn main() {
                 res.bump("not-compared(activity refused)");
             }
         }
-        let nontrivial = c.acts.iter().any(|x| matches!(x, Act::Post { provider: Some(_), .. } | Act::Input { provider: Some(_), .. } | Act::Post { input: InputSpec::ToolEnv { .. }, .. } | Act::Input { input: InputSpec::ToolEnv { .. }, .. } | Act::InputRace { .. } | Act::PostDrop { .. }));
+        let nontrivial = !c.side_faults.is_empty() || c.acts.iter().any(|x| matches!(x, Act::Post { provider: Some(_), .. } | Act::Input { provider: Some(_), .. } | Act::Post { input: InputSpec::ToolEnv { .. }, .. } | Act::Input { input: InputSpec::ToolEnv { .. }, .. } | Act::InputRace { .. } | Act::PostDrop { .. }));
         if nontrivial {
             distinct.add(&cj.to_string());
         }
@@ -2301,6 +2617,7 @@ fn main() {
     }
     w.flush();
     rip_kernel::verif::set_hook(None);
+    rip_kernel::verif::set_fail_hook(None);
     res.distinct_nontrivial = distinct.count();
     res.case_files = w.files.iter().map(|p| p.display().to_string()).collect();
     res.write(&a.out);
